@@ -101,8 +101,8 @@ def fevJson : FEv → Json
   | .idx i => jarr [Json.str "idx", jint i]
 
 def fstJson (s : FSt) : Json :=
-  Json.mkObj [("idx", jint s.idx), ("value", jint s.value), ("evs", jarr (s.evs.map fevJson)), ("ok", Json.bool s.ok),
-              ("exc", jexc s.exc)]
+  Json.mkObj [("idx", jint s.idx), ("value", jint s.value), ("idxErr", Json.bool s.idxErr), ("valErr", Json.bool s.valErr),
+              ("evs", jarr (s.evs.map fevJson)), ("ok", Json.bool s.ok), ("exc", jexc s.exc)]
 
 def parseFRec (j : Json) : R FRec := do
   return { write := ← optInt (← fld j "write"), assign := ← optInt (← fld j "assign"), ok := ← fldBool j "ok",
@@ -239,9 +239,9 @@ def handle (j : Json) : R Json := do
     return verdict (judgeStruct members trace 0) (badIdxs (fun e => membersAgreeB members e.1 e.2) trace 0)
   | "floatenum" =>
     let cfg : FCfg := { vdict := ← parseVdict (← fld j "vdict"), lo := ← fldInt j "lo", hi := ← fldInt j "hi",
-                        hasR := ← fldBool j "hasR", hasW := ← fldBool j "hasW" }
+                        hasR := ← fldBool j "hasR", hasW := ← fldBool j "hasW", omitUnch := ← fldBool j "omit" }
     let ops ← (← fldArr j "ops").mapM parseFOp
-    let s0 := finit cfg (← fldInt j "idx0")
+    let s0 := finit cfg (← fldInt j "idx0") (← fldBool j "idxErr0") (← fldBool j "valErr0")
     return Json.mkObj [("init", fstJson s0), ("states", jarr ((frun cfg s0 ops).map fstJson))]
   | "judge_floatenum" =>
     let vdict ← parseVdict (← fld j "vdict")
